@@ -26,5 +26,5 @@ def run(tier, seed):
     vlib.REPLAY_ENV["VF_WASM_DIR"] = wdir
     c.extra_cov["programs"] = len(cases)
     c.run_unit(WH, "wh", harnesses=["VfH_c14"], extra_pkgs=[{"dir": WB, "name": "main", "rt": False}], extra_overlay=extra,
-               opts={"wasm": "c14=" + os.path.join(wdir, "c14.wasm"), "samples": 2, "maxdecisions": 4000, "tasktimeout": "240s" if tier == "quick" else "1200s", "transparent": "strconv"})
+               opts={"wasm": "c14=" + os.path.join(wdir, "c14.wasm"), "samples": 2, "maxdecisions": 4000, "tasktimeout": "240s" if tier == "quick" else "3000s", "transparent": "strconv"})
     return c.finish()
